@@ -124,6 +124,22 @@ func init() {
 				e.Violate("c17-content", fmt.Sprintf("%s rendered %q (%s %s), the inline form gives %q", t[0], o.Out, o.Class, firstLine(o.Msg), t[1]), map[string]interface{}{"case": c, "observed": o})
 			}
 		}
+		// a data key (or a variable of the caller) named like a BUILT-IN helper, read two or more scopes below
+		// where it was bound (a partial inside a partial, a loop inside a partial, a block of the partial
+		// replayed by its layout): it is what the caller bound, as in the inline form
+		for _, t := range [][2]string{
+			{`<%= partial("h1", {raw: "R"}) %>`, "[R|R]"}, {`<%= partial("h3", {len: "L"}) %>`, "LL"}, {`<% let truncate = "T" %><%= partial("h4") %>`, "T/T"},
+			{`<%= partial("h5", {raw: "R", layout: "hlay"}) %>`, "<R:in R>"}, {`<%= contentOf("nodef", {raw: "R"}) { %><%= for (i) in [1, 2] { %><%= raw %><% } %><% } %>`, "RR"},
+			{`<% let len = "mine" %><%= for (i) in [1] { %><%= for (j) in [1] { %><%= partial("h6") %><% } %><% } %>`, "mine"},
+		} {
+			c := RCase{Tmpl: t[0], Binds: c17binds(), Parts: map[string]string{"h1": `[<%= raw %>|<%= partial("h2") %>]`, "h2": `<%= raw %>`, "h3": `<%= for (i) in [1, 2] { %><%= len %><% } %>`,
+				"h4": `<%= truncate %>/<%= if (true) { %><%= for (i) in [1] { %><%= truncate %><% } %><% } %>`, "h5": `<% contentFor("hb") { %>in <%= raw %><% } %><%= raw %>`, "hlay": `<<%= yield %>:<%= contentOf("hb") %>>`, "h6": `<%= len %>`}}
+			o := e.addRenderCase("helper-named-data", c)
+			e.Distinct(t[0])
+			if o.Class != "OK" || o.Out != t[1] {
+				e.Violate("c17-partial", fmt.Sprintf("%s rendered %q (%s %s), the inline form gives %q", t[0], o.Out, o.Class, firstLine(o.Msg), t[1]), map[string]interface{}{"case": c, "observed": o})
+			}
+		}
 		// data whose value is nil binds the name too: it hides an outer variable of that name, exactly
 		// as a let would in the inline form
 		{
